@@ -227,7 +227,8 @@ CLAIMED = {
              "set of functions consulting CheckPermissions, that the check precedes the first store write, and the root checks of "
              "EditSudoers/ChangeRoot. Correspondence on the real msg servers.",
         note="Trusted: Lean kernel; harness; extractor. Authz wrapping is decided in the message-tree model. One genuine defect was found "
-             "and repaired (fix: commit 9caae2d: stored root compared as a string).",
+             "and repaired (fix: commit 9caae2d: stored root compared as a string); a second one late (fix: commit 90c6c75: EditOracleParams "
+             "dereferenced its optional params field — an authorised sender's payload-less message panicked).",
         technique="Lean 4 proof (guard/effect case analysis) + regenerated facts + differential correspondence",
         ref="§7 C16"),
     "C18": dict(
